@@ -75,13 +75,14 @@ func sanitizerOverride(c *core.Ctx) {
 		c.Hist("functions_found_in_rewritten_pipelines", n)
 	}
 	if len(sorted) == 0 {
-		c.Violation(kase{Clause: "override", Item: "discovery"}, "no function name was found in the rewritten pipelines of %d one-action templates: the probe cannot see the sanitizers", len(overrideSites))
+		report(c, kase{Clause: "override", Item: "discovery"}, "no function name was found in the rewritten pipelines of %d one-action templates: the probe cannot see the sanitizers", len(overrideSites))
 		return
 	}
 	evil := payload(7)
 	fm := func(name string) template.FuncMap {
 		return template.FuncMap{name: func(args ...interface{}) string { return evil }}
 	}
+names:
 	for _, name := range sorted {
 		for _, when := range []string{"before Parse", "after Parse", "after the first execution"} {
 			refusedAll := true
@@ -116,7 +117,7 @@ func sanitizerOverride(c *core.Ctx) {
 					out = h.String()
 				})
 				if pn != nil {
-					c.Violation(kase{Clause: "override", Item: name, Detail: site}, "panic outside Funcs while probing %s %s on %s: %v", name, when, site, pn)
+					report(c, kase{Clause: "override", Item: name, Detail: site}, "panic outside Funcs while probing %s %s on %s: %v", name, when, site, pn)
 					return
 				}
 				if !refused {
@@ -124,8 +125,8 @@ func sanitizerOverride(c *core.Ctx) {
 				}
 				c.DistinctS("override", name, when, site)
 				if strings.Contains(out, evil) {
-					c.Violation(kase{Clause: "override", Item: name, Detail: when + " " + site}, "Funcs(FuncMap{%q: f}) %s was accepted and ExecuteToHTML of %s returned an HTML value that contains f's result verbatim: any caller of Funcs can replace the sanitizer", name, when, site)
-					return
+					report(c, kase{Clause: "override", Item: name, Detail: when + " " + site}, "Funcs(FuncMap{%q: f}) %s was accepted and ExecuteToHTML of %s returned an HTML value that contains f's result verbatim: any caller of Funcs can replace the sanitizer", name, when, site)
+					continue names
 				}
 			}
 			if refusedAll {
@@ -201,7 +202,7 @@ func treeField(c *core.Ctx, judge bool) {
 		if strings.Contains(out, evil) {
 			c.Count("tree_field_edit_reaches_html:"+n, 1)
 			if judge {
-				c.Violation(kase{Clause: "tree-field", Item: n}, "Template.Tree is an exported field holding the tree that is executed: %s, and ExecuteToHTML returned an HTML value with the run-time string %q verbatim", n, evil)
+				report(c, kase{Clause: "tree-field", Item: n}, "Template.Tree is an exported field holding the tree that is executed: %s, and ExecuteToHTML returned an HTML value with the run-time string %q verbatim", n, evil)
 				return
 			}
 		}
